@@ -157,24 +157,35 @@ def run_property(pid: str, tier: str, seed: int) -> int:
 
     # ---------------- counterexamples: replay on the real code
     os.makedirs(os.path.join(VERIF, "replays", pid), exist_ok=True)
-    seen_groups = set()
+    # group the refuted obligations (same obligation on different paths); replay up to 6 members of a group until one
+    # reproduces on the real code; one VIOLATION line per group
+    groups = {}
     for unit, ob, job, r in refuted:
-        group = re.sub(r"/(s\d+)?p\d+$", "", ob.name)
-        rfile = os.path.join(VERIF, "replays", pid, _safe(ob.name.split("/", 1)[1]) + ".json")
-        record = {
-            "property": pid, "obligation": ob.name, "unit": unit.name, "kind": "vc-counterexample", "decisions": ob.meta.get("decisions"),
-            "solver": {"backend": r["backend"], "time_s": r["time_s"], "verdict": "sat (negated obligation satisfiable)", "model": r["model"]},
-            "replayer": getattr(unit, "replayer", ""), "note": ob.meta.get("note", ""),
-        }
-        outcome = None
-        if getattr(unit, "replayer", ""):
-            json.dump(record, open(rfile, "w"), indent=1)
-            outcome = _run_replay(rfile)
-            record["replay"] = outcome
-        json.dump(record, open(rfile, "w"), indent=1, default=str)
-        reproduced = bool(outcome and outcome.get("reproduced"))
-        sig = (outcome or {}).get("signature", "")
-        # known finding?
+        groups.setdefault(re.sub(r"/(s\d+)?p\d+$", "", ob.name), []).append((unit, ob, job, r))
+    for group, members in groups.items():
+        best = None
+        for n_try, (unit, ob, job, r) in enumerate(members):
+            rfile = os.path.join(VERIF, "replays", pid, _safe(ob.name.split("/", 1)[1]) + ".json")
+            record = {
+                "property": pid, "obligation": ob.name, "unit": unit.name, "kind": "vc-counterexample", "decisions": ob.meta.get("decisions"),
+                "solver": {"backend": r["backend"], "time_s": r["time_s"], "verdict": "sat (negated obligation satisfiable)", "model": r["model"]},
+                "replayer": getattr(unit, "replayer", ""), "note": ob.meta.get("note", ""), "same_obligation_refuted_on_paths": len(members),
+            }
+            outcome = None
+            if getattr(unit, "replayer", "") and n_try < 6:
+                json.dump(record, open(rfile, "w"), indent=1)
+                outcome = _run_replay(rfile)
+                record["replay"] = outcome
+            elif n_try >= 6:
+                break
+            json.dump(record, open(rfile, "w"), indent=1, default=str)
+            reproduced = bool(outcome and outcome.get("reproduced"))
+            sig = (outcome or {}).get("signature", "")
+            if best is None or reproduced:
+                best = (rfile, reproduced, sig)
+            if reproduced:
+                break
+        rfile, reproduced, sig = best
         hit = None
         for f in kf_prop:
             m = f.get("match", {})
@@ -184,10 +195,7 @@ def run_property(pid: str, tier: str, seed: int) -> int:
         if hit is not None:
             known_hit.setdefault(hit["id"], hit)
             continue
-        if group in seen_groups:
-            continue
-        seen_groups.add(group)
-        violations.append({"what": ob.name, "replay": rfile, "suffix": "" if reproduced else " no-failing-input-found"})
+        violations.append({"what": group, "replay": rfile, "suffix": "" if reproduced else " no-failing-input-found"})
 
     # ---------------- bounded stand-ins (same contracts at run time on the real functions; never counted as proved)
     bounded_reports = []
